@@ -6,7 +6,7 @@ def describe(group, case):
     if group == "verify":
         return "IntroductionMessage{Mirror:%s ProtocolVersion:%s Extra:%s (%s bytes)}.Verify = %s disagrees with the declarative acceptance condition" % (
             case.get("mirror"), case.get("version"), case.get("extra_hex"), case.get("extra_len"), case.get("result"))
-    return "messages delivered to a fresh connection: %s" % case.get("messages")
+    return "daemon config [%s], messages delivered to a fresh connection: %s" % (case.get("config"), case.get("messages"))
 
 
 SPEC = {
